@@ -82,6 +82,19 @@ def _item_int(name, lo, hi):
     return item
 
 
+def _names_havoc(c):
+    """The 'filter' column of the returned table is filled row by row: between iterations it holds arbitrary names."""
+    filt = c.st.env['filters']
+    cell = c.st.heap[filt.addr]
+    cols = dict(cell.attrs['@cols'])
+    old = cols['filter']
+    cols['filter'] = c.fresh_array('names_so_far', c.A(old).shape, 'int')
+    attrs = dict(cell.attrs)
+    attrs['@cols'] = cols
+    from sedvc.values import ObjCell
+    c.st.heap[filt.addr] = ObjCell('<table>', attrs)
+
+
 def _chunk_item(c, it):
     c.interp.mono_range = it
     k = Sc(fresh_int('jmin'))
@@ -238,10 +251,10 @@ class Monochromatic(Contract):
     name = MONO
     properties = ('C16',)
     variants = ('window',)
-    loops = {1: EventLoop('chunks', _chunk_check, item=_chunk_item),
+    loops = {1: EventLoop('chunks', _chunk_check, item=_chunk_item, havoc=_names_havoc),
              2: EventLoop('models', _sed_check, item=_sed_item),
              3: EventLoop('fill', _fill_check, item=_pos_item),
-             4: EventLoop('write', _write_check, item=_pos_item)}
+             4: EventLoop('write', _write_check, item=_pos_item, havoc=_names_havoc)}
     # positivity / monotone axis of each SED file: conditions on the package data, not on the orchestration
     assume_pre_of = (SED + '.read',)
 
